@@ -239,6 +239,20 @@ func CanonOfSchema(sc *ast.Schema) string {
 func init() {
 	// loadcanon <hex src>… : order-insensitive dump of the loaded schema (hex) or E,…
 	Ops["loadcanon"] = func(a []string) string { return LoadCanon(unhexAll(a)) }
+	// loadcanonb: validator.LoadSchema(prelude, sources…) with the FIRST source of a multi-source set
+	// marked BuiltIn (definitions of a built-in source are exempt from the reserved-name rule)
+	Ops["loadcanonb"] = func(a []string) string {
+		texts := unhexAll(a)
+		srcs, _, byName := LoadSources(texts)
+		if len(texts) > 1 {
+			srcs[1].BuiltIn = true
+		}
+		sc, err := validator.LoadSchema(srcs...)
+		if err != nil {
+			return ErrObsSrc(err, byName)
+		}
+		return CanonOfSchema(sc)
+	}
 	// loadhist <hex src>… | <hex src>… | … : successive gqlparser.LoadSchema calls in one process
 	Ops["loadhist"] = func(a []string) string {
 		var sets [][]string
